@@ -150,7 +150,8 @@ elab "hoare_step" : tactic => withMainContext do
     else if act.isAppOf ``ite || act.isAppOf ``dite then
       evalTactic (← `(tactic| split))
     else if (← isMatcherApp act) then
-      evalTactic (← `(tactic| split))
+      -- a `match` on a tuple that was just built leaves `(a, b) = (x, y)`: substitute
+      evalTactic (← `(tactic| (split <;> (try injections) <;> (try subst_vars))))
     else if fn.isConst || fn.isFVar || fn.isProj then
       evalTactic (← `(tactic| first
         | (refine wpE_pureCallR (by solve_by_elim (maxDepth := 10) (transparency := .reducible) using $(mkIdent `hspec)) ?k
